@@ -24,7 +24,7 @@ CHECKS = {
          "Lookup results (outputs of a solver instruction, not a hint) are not forged; log-derivative soundness error 1/p ignored (curve fields only for the adversary).",
          "DESIGN.md §3 C13"),
  "C03": ("property-based differential testing vs reference interpreter over the configuration product (rapid)",
-         "Random provable programs biased to edge shapes x 7 curves x {Groth16, PLONK} x consistent hash / statistical-ZK / solver-task options; the reference interpreter classifies the assignment: satisfying => Setup, Prove and Verify (two forms of the public witness) all succeed and a verifier with a different hash option rejects; non-satisfying => Prove returns an error within a bound, without panic.",
+         "Random provable programs biased to edge shapes, plus a deterministic sweep over EVERY small system size (2..17 rows, around 32 and 64) x 7 curves x {Groth16, PLONK} x consistent hash / statistical-ZK / solver-task options; the reference interpreter classifies the assignment: satisfying => Setup, Prove and Verify (two forms of the public witness) all succeed and a verifier with a different hash option rejects; non-satisfying => Prove returns an error, without panic; a prover goroutine that kills the process is attributed to the running case (crash breadcrumb).",
          "Interleavings of the internally concurrent provers are sampled (whatever the scheduler does in N runs), not enumerated; a prover that does not return is recognised by CPU time consumed (240 s for work that takes milliseconds) or by an idle process, never by the wall clock alone; a slow machine gives an inconclusive (discarded) case.",
          "DESIGN.md §3 C03"),
  "C06": ("validity predicate on every solver output + independent replay solver (rapid)",
@@ -52,11 +52,11 @@ CHECKS = {
          "Small-field systems have no exported empty-system factory and are not round-tripped; GKR metadata is covered only through C19's circuits, not here.",
          "DESIGN.md §3 C09"),
  "C10": ("differential testing of concurrent vs sequential execution in child processes (rapid scenarios; race detector in the thorough tier)",
-         "Generated scenarios share one compiled R1CS / sparse system (witness-dependent lookup table, commitment, hints), Groth16 and PLONK keys, proofs and a solver-option slice with spare capacity among 2-8 goroutines making Solve / Prove / Verify calls with distinct satisfying and non-satisfying witnesses (wrong outputs and lookups outside the table, which fail inside an instruction) (also on a restored-from-bytes system, also while other circuits compile in the background); every concurrent call must return what it returned alone, a later sequential pass must still match, and the child must not crash, race or wedge.",
+         "Generated and directed scenarios share one compiled R1CS / sparse system (witness-dependent lookup table, commitment, hints), Groth16 and PLONK keys, proofs and the caller-owned option objects (a solver-option slice with spare capacity, one ProverOption value, one []ProverOption slice) among 2-8 goroutines making Solve / Prove / Verify calls with distinct satisfying and non-satisfying witnesses (wrong outputs and lookups outside the table, which fail inside an instruction) (also on a restored-from-bytes system, also while other circuits compile in the background); every concurrent call must return what it returned alone, a later sequential pass must still match, and the child must not crash, race or wedge.",
          "Interleavings are sampled by repetition x GOMAXPROCS values, not enumerated; there is no schedule control. A wedge is only declared when no call completed for 45 s and the process then sat idle (< 0.3 s CPU in 15 s), twice; a slow child is inconclusive. Assurance: no divergence in N repetitions and (thorough) a clean race-detector run.",
          "DESIGN.md §3 C10"),
  "C11": ("metamorphic property-based testing: repeated compilation must give identical bytes (rapid; child processes)",
-         "Generated circuits using hints, commitments, lookup tables, range checks, emulated arithmetic, multicommit, nested deferred callbacks, Println and the sparse builder's wire-query interface are compiled K times sequentially, in parallel goroutines while other circuits compile, and in fresh processes; the serialized constraint systems must be byte-identical, and keys of the first compilation must prove and verify with the K-th.",
+         "Generated circuits using hints, commitments, lookup tables, range checks, emulated arithmetic, multicommit, nested deferred callbacks, Println and the sparse builder's wire-query interface (unused inputs, internal wires, distinct repeated constants) are compiled K times sequentially, in parallel goroutines while other circuits compile, and in fresh processes; the serialized constraint systems must be byte-identical, and keys of the first compilation must prove and verify with the K-th.",
          "'Every run and process' is sampled (K=12/40 repeats, 6 parallel, 2 processes); a map of >= 3 entries iterated in a rarely taken path can need more tries than K.",
          "DESIGN.md §3 C11"),
  "C15": ("differential property-based testing against reference hash implementations (rapid + length sweeps)",
@@ -68,12 +68,12 @@ CHECKS = {
          "Quick tier samples the heavy operations (Cmp, AssertIsLessOrEqual, wide ToBinary) and is exhaustive in the thorough tier; searches that exceed the node budget are counted as inconclusive (variable-bound AssertIsLessOrEqual on the sparse builder for some tuples).",
          "DESIGN.md §3 C05"),
  "C12": ("model-based property testing of op sequences + hint adversary (rapid)",
-         "Rapid-drawn op sequences over pools of emulated elements (7-9 parameter sets incl. two custom ones, 2-4 native fields, non-canonical and short operands, sequences that pump the overflow counter) are compared with a big-integer model: every returned element must be congruent to the model and respect limb width = BitsPerLimb + tracked overflow (read by reflection), documented failures must be unsatisfiable; on compiled systems the multiplication / division / padding hints are rewritten (r+d, r+p with k-1, native-field wrap, shifted carries, too-wide limbs) and an incongruent result must never be accepted.",
+         "Rapid-drawn op sequences over pools of emulated elements (7-9 parameter sets incl. two custom ones, 2-4 native fields, non-canonical and short operands, sequences that pump the overflow counter) are compared with a big-integer model: strict-reduction flags carried through Mux / Select / Lookup2 are attacked with non-canonical candidates at every position; every returned element must be congruent to the model and respect limb width = BitsPerLimb + tracked overflow (read by reflection), documented failures must be unsatisfiable; on compiled systems the multiplication / division / padding hints are rewritten (r+d, r+p with k-1, native-field wrap, shifted carries, too-wide limbs) and an incongruent result must never be accepted.",
          "Open finding F11 (carry limbs of the multiplication hint are not range checked: native-field wrap forgery) is probed on every run incl. a real Groth16 proof, printed as KNOWN-FINDING and excluded by a narrow signature.",
          "DESIGN.md §3 C12"),
  "C16": ("differential property-based testing against reference curve arithmetic / native verifiers + hint adversary (rapid, exceptional-input tables)",
-         "Short-Weierstrass (emulated secp256k1, BN254, P-256, P-384, BLS12-381, BW6-761; native BLS12-377) and twisted-Edwards group operations, scalar and multi-scalar multiplication with and without complete arithmetic on exceptional points and scalars (incl. equal / opposite partial products of joint multiplications), ECDSA / EdDSA / ecrecover accept-sets against crypto/ecdsa and gnark-crypto, pairing checks on true and false equations; on compiled circuits the GLV / fake-GLV decomposition and scalar-mul hints are rewritten and a wrong claimed point must be unsatisfiable.",
-         "Ten open findings (F24-F32, F39: unchecked zero sub-scalars, selector bypass, AddUnified exceptional case, non-terminating half-GCD hint, unsatisfiable small scalars, twisted-Edwards decomposition not bound, ECDSA x(R) not reduced, bandersnatch identity) are each probed on every run, printed as KNOWN-FINDING and excluded by exact shape; inputs outside a method's documented domain are not asserted.",
+         "Short-Weierstrass (emulated secp256k1, BN254, P-256, P-384, BLS12-381, BW6-761; native BLS12-377) and twisted-Edwards group operations, scalar and multi-scalar multiplication with and without complete arithmetic on exceptional points and scalars (incl. equal / opposite partial products of joint multiplications), ECDSA / EdDSA / ecrecover accept-sets against crypto/ecdsa and gnark-crypto (EdDSA incl. torsion components of every order in R and A on all 8 companion curves), pairing checks on true and false equations; on compiled circuits the GLV / fake-GLV decomposition and scalar-mul hints are rewritten and a wrong claimed point must be unsatisfiable.",
+         "Twelve open findings (F24-F32, F39, F47, F48: unchecked zero sub-scalars, selector bypass, AddUnified exceptional case, non-terminating half-GCD hint, unsatisfiable small scalars, twisted-Edwards decomposition not bound, ECDSA x(R) not reduced, bandersnatch identity, accumulator meeting G for points in the small orbit of G, fixed-base P-256/P-384 collisions) are each probed on every run, printed as KNOWN-FINDING and excluded by exact shape; inputs outside a method's documented domain are not asserted.",
          "DESIGN.md §3 C16"),
  "C20": ("invariant checking over repeated proofs with captured wire values (rapid, verif hook)",
          "For generated circuits (0-3 commitments, low-entropy committed secrets) on all curves and both backends, M proofs of the same witness are made in one process while the verif hook captures the wire values of each solve: no blinded element may repeat across proofs, Groth16 Ar/Bs must differ from alpha+sum(w_i A_i) / beta+sum(w_i B_i) (non-zero, pairwise distinct, r != s via pairings), commitments must differ from the unmasked Pedersen / KZG commitment, and with a known toxic value PLONK's L,R,O,Z commitments and claimed values must differ from the unblinded ones recomputed from the captured columns.",
@@ -84,7 +84,7 @@ CHECKS = {
          "The byte-slot layout is derived from the marshal code and validated by re-encoding; slice length prefixes are never edited (open finding F05); an emptied challenge is documented to be filled in by the verifier and nothing is asserted there.",
          "DESIGN.md §3 C18"),
  "C17": ("differential property-based testing: native verifier vs in-circuit verifier (rapid, typed surgery before assignment)",
-         "For generated inner circuits (fixed shape per outer circuit) on 5 inner/outer pairings (two-chains and emulated), Groth16 and PLONK, fixed / witness / constant / switched keys, complete arithmetic and subgroup-check options: genuine, replayed, element-edited (incl. cofactor-torsion points), cross-key and key-switching triples are given to the native verifier (with the matching recursion options) and to the outer circuit (test engine; compiled solve for a subset); accept <=> satisfiable in both directions.",
+         "For generated inner circuits (fixed shape per outer circuit) on 5 inner/outer pairings (two-chains and emulated), Groth16 and PLONK (single- and multi-proof entry points), the KZG multi-point gadget, fixed / witness / constant / switched keys, complete arithmetic and subgroup-check options: genuine, replayed, element-edited (incl. cofactor-torsion points on every proof element), pairwise-cancelling quotient shifts with a known toxic value, cross-key and key-switching triples are given to the native verifier (with the matching recursion options) and to the outer circuit (test engine; compiled solve for a subset); accept <=> satisfiable in both directions.",
          "The native verdict is the oracle; incomplete arithmetic is only asserted outside its documented exceptional inputs; emulated pairs get few cases in the quick tier; scalars near r-k are not generated (open finding F27).",
          "DESIGN.md §3 C17"),
 }
